@@ -308,7 +308,8 @@ theorem aliasView_shape (m : Member) (h : MemberGood m) (l : List Decl) (hl : al
   | alias n d ty =>
     simp only [aliasView, Option.map_eq_some_iff] at hl
     obtain ⟨g, hg, rfl⟩ := hl
-    simp [Decl.shapeOk, goTy_shapeOk ty true g (h.names _ (by simp [Member.types])) (h.dist _ (by simp [Member.types])) hg]
+    have hs := goTy_shapeOk ty true g (h.names _ (by simp [Member.types])) (h.dist _ (by simp [Member.types])) hg
+    cases isAliasDecl ty <;> simp [Decl.shapeOk, hs]
   | method => simp [aliasView] at hl; subst hl; rfl
   | error => simp [aliasView] at hl; subst hl; rfl
 
